@@ -78,3 +78,27 @@ func VerifScan(in []VerifToken) (map[string][]VerifToken, bool, error) {
 func VerifEval(in []VerifToken) (int, error) {
 	return evaluateExpression(verifIn(in))
 }
+
+// VerifLine mirrors the parser's unexported sourceLine (the fields the compiler uses).
+type VerifLine struct {
+	Typ      int // 0 empty, 1 instruction, 2 pseudo-op, 3 comment
+	CodeLine int
+	Labels   []string
+	Op       string
+	AMode    string
+	A        []VerifToken
+	BMode    string
+	B        []VerifToken
+	Comment  string
+}
+
+// VerifParse runs the parser over a token sequence.
+func VerifParse(in []VerifToken) ([]VerifLine, error) {
+	lines, _, err := newParser(newBufTokenReader(verifIn(in))).parse()
+	out := make([]VerifLine, len(lines))
+	for i, l := range lines {
+		out[i] = VerifLine{Typ: int(l.typ), CodeLine: l.codeLine, Labels: l.labels, Op: l.op, AMode: l.amode, A: verifOut(l.a),
+			BMode: l.bmode, B: verifOut(l.b), Comment: l.comment}
+	}
+	return out, err
+}
